@@ -48,6 +48,26 @@ check("C19",
       "Lean 4 proof of the size-parser/exit-table logic + differential correspondence + subprocess exploration against ground truth",
       "DESIGN.md §4 C19")
 
+check("C05",
+      "Theorems (Lean, for EVERY decoder function, input and declared size): the repaired Worker.decompress / "
+      "encoded-header loop ends within (declared output + unread input + 1)(k+2) iterations; a call never returns more "
+      "than requested; counter-example theorem for the pinned unguarded loop (F4, repaired). The decode model is tied "
+      "to compressor.py/py7zr.py by scripted-decoder correspondence (calls and whole loops incl. the stall guard); the "
+      "header parser model by the mutated-header stream. Time/memory themselves are measured: sandboxed sessions "
+      "(10 s, 1.5 GiB, peak RSS) over byte-mutated, structure-mutated (CRC re-sealed, extreme counts, external flags "
+      "with every data index) and wrong-password inputs x call sequences. Partial: wall time and RSS are observations.",
+      "Lean 4 termination proof by lexicographic measure over a decoder-parametric model + differential correspondence + sandboxed mutation exploration",
+      "DESIGN.md §4 C05")
+check("C20",
+      "Theorems (Lean, for every decoder): per call at most max_length bytes returned and at most one block of input "
+      "read; a chain that honours max_length never buffers; otherwise the carry-over buffer holds at most one call's "
+      "decoder output; no loss/duplication across the buffer for every request sequence; counter-example theorem: a "
+      "decoder ignoring max_length makes the buffer proportional to expansion (F13, open known finding for "
+      "ZStandard/Deflate/Brotli). Tied by the dec stream (buffer length/pos/consumed compared). Peak RSS of real "
+      "256 MB (quick) / 1 GB (thorough) members per codec family is measured in child processes. Partial: RSS is an observation.",
+      "Lean 4 invariants over a decoder-parametric model + differential correspondence + RSS measurement in child processes",
+      "DESIGN.md §4 C20")
+
 ALL = ["C%02d" % i for i in range(1, 21)]
 REASON_PENDING = "not yet claimed in this revision: model/theorems/correspondence for it are still being built (see DESIGN.md §8.3 staging)"
 
